@@ -831,6 +831,7 @@ func c07JudgeCase(c *Ctx, cs *c07Case, class string) (*c07Verdict, bool) {
 			}
 			if !failed {
 				c07DeliveredValue(c, small, sv, suffix)
+				c07DeliveredLiteral(c, small, sv, suffix)
 			}
 		}
 		return v, false
@@ -930,6 +931,63 @@ func c07DeliveredValue(c *Ctx, cs *c07Case, v *c07Verdict, suffix string) {
 				Input: map[string]interface{}{"program": v.src, "binding": b.id + " = " + b.b.mro(), "producer_value": val,
 					"delivered": string(fm), "error": fmt.Sprint(verr, alarms.String())}})
 			return
+		}
+	}
+}
+
+// c07DeliveredLiteral: a reference-free literal binding the model rejects but the
+// compiler accepts: the JSON the real EncodeJSON writes for it is pushed through
+// the real IsValidJson of the parameter type (for a split literal: every element).
+func c07DeliveredLiteral(c *Ctx, cs *c07Case, v *c07Verdict, suffix string) {
+	r := c.Res
+	for j, b := range cs.binds {
+		if v.bindOk[j] || b.b.e.hasRef() || b.id == "disabled" {
+			continue
+		}
+		var rb *syntax.BindStm
+		for _, p := range v.ast.Pipelines {
+			for _, call := range p.Calls {
+				if call.Id == "S" {
+					rb = call.Bindings.Table[b.id]
+				}
+			}
+		}
+		if rb == nil {
+			continue
+		}
+		dst := v.ast.TypeTable.Get(rb.Tname)
+		if dst == nil {
+			continue
+		}
+		var values []syntax.Exp
+		switch e := rb.Exp.(type) {
+		case *syntax.SplitExp:
+			switch inner := e.Value.(type) {
+			case *syntax.ArrayExp:
+				values = append(values, inner.Value...)
+			case *syntax.MapExp:
+				for _, k := range inner.Value {
+					values = append(values, k)
+				}
+			}
+		default:
+			values = []syntax.Exp{rb.Exp}
+		}
+		for _, val := range values {
+			js, err := json.Marshal(val)
+			if err != nil {
+				continue
+			}
+			var alarms strings.Builder
+			verr := dst.IsValidJson(js, &alarms, &v.ast.TypeTable)
+			if verr != nil || alarms.Len() > 0 {
+				r.violate(Violation{Kind: "property", Key: "C07:ill-typed-accepted:literal-invalid" + suffix,
+					What: "the compiler accepts a literal binding the typing model rejects, and the JSON it delivers does not validate against the parameter type " +
+						rb.Tname.String() + ": " + firstLine(fmt.Sprint(verr, alarms.String())),
+					Input: map[string]interface{}{"program": v.src, "binding": b.id + " = " + b.b.mro(), "delivered_json": string(js),
+						"error": fmt.Sprint(verr, alarms.String())}, Broken: "validExp_literal_sound"})
+				return
+			}
 		}
 	}
 }
